@@ -120,6 +120,10 @@ func RemoveDuplicateEntries(entries []string, allAlias string) (res []string) {
 
 func (user *User) UpdateUser(cmd []string) error {
 	for _, str := range cmd {
+		// Skip empty tokens (every rule below inspects the first character).
+		if len(str) == 0 {
+			continue
+		}
 		// Parse enabled
 		if strings.EqualFold(str, "on") {
 			user.Enabled = true
@@ -320,7 +324,7 @@ func CreateUser(username string) *User {
 }
 
 func GetPasswordType(password string) string {
-	if password[0] == '#' {
+	if len(password) > 0 && password[0] == '#' {
 		return PasswordSHA256
 	}
 	return PasswordPlainText
